@@ -870,6 +870,29 @@ class ModelsWorld(World):
         if faulted:
             self.probes["save_completed_despite_fault"] += 1
         self._isolation(opname, pred)
+        if path not in self.fs.files:
+            self.disk.pop(path, None)
+            raise Violation("durability", opname, pred, "", f"{how} returned normally but there is no file {path}")
+        if how != "to_portable_file" and len(before.get(path, b"")) > 0:
+            # a completed save IS the file: nothing of an earlier, longer file may follow the saved object (pickle and
+            # dill readers stop at the end of the first object and would never notice)
+            import io as _io
+            data = bytes(self.fs.files[path])
+            bio = _io.BytesIO(data)
+            try:
+                if "pickle" in how:
+                    pickle.Unpickler(bio).load()
+                else:
+                    import dill
+                    dill.Unpickler(bio).load()
+                rest = len(data) - bio.tell()
+            except Exception as e:
+                strip_traceback(e)
+                rest = 0        # unreadable files are the business of the load oracles
+            if rest:
+                self.disk[path] = "torn"
+                raise Violation("durability", opname, pred, "", f"{rest} bytes follow the saved object in {path}: residue of the earlier file ({len(before[path])} bytes) under a completed save ({len(data)} bytes)")
+            self.probes["save_over_longer_or_equal_file_checked"] += 1
         rec = {"how": how, "tname": r.tname, "cls": r.cls, "log": _copy.deepcopy(r.log), "raised": list(r.raised),
                "cheap": self._cheap(r), "deep": self._deep(r), "pred": pred}
         if how == "to_portable_file":
